@@ -26,6 +26,40 @@ class InjectedFault(Exception):
         self.site = site
 
 
+class InjectedStop(InjectedFault, StopIteration):
+    pass
+
+
+class InjectedKey(InjectedFault, KeyError):
+    pass
+
+
+class InjectedValue(InjectedFault, ValueError):
+    pass
+
+
+class InjectedType(InjectedFault, TypeError):
+    pass
+
+
+class InjectedAttr(InjectedFault, AttributeError):
+    pass
+
+
+class InjectedIndex(InjectedFault, IndexError):
+    pass
+
+
+class InjectedRuntime(InjectedFault, RuntimeError):
+    pass
+
+
+# what a raising user callback raises: the library has to treat every Exception alike (a narrow except clause around a user
+# function - StopIteration around next(), KeyError around a lookup - must not mistake the user's exception for its own)
+FAULT_CLASSES = {None: InjectedFault, "stop_iteration": InjectedStop, "key_error": InjectedKey, "value_error": InjectedValue,
+                 "type_error": InjectedType, "attribute_error": InjectedAttr, "index_error": InjectedIndex, "runtime_error": InjectedRuntime}
+
+
 class SourceError(Exception):
     """Error notification carried by a sim source timeline."""
 
@@ -172,6 +206,7 @@ class World:
         self.counts = collections.Counter()
         self.faults = {}  # site -> set(k)
         self.fired = []  # (seq, site, k)
+        self.fault_cls = InjectedFault
         self.escaped = []  # (seq, t, where, exc)
         self.pending_early = []
         self.pending_hot = []
@@ -262,7 +297,7 @@ class World:
         ks = self.faults.get(site)
         if ks and k in ks:
             self.fired.append((self.seq, site, k))
-            raise InjectedFault(site)
+            raise self.fault_cls(site)
         return k
 
     def fn(self, kind, site, m=2, r=0, pool=None, spec=None):
@@ -300,6 +335,8 @@ def pure(kind, m=2, r=0, pool=None):
         return lambda x: x
     if kind == "cmp":
         return lambda a, b: h(a) % m == h(b) % m
+    if kind == "cmp_le":  # not symmetric: (element, given value) / (element of the first, element of the second) are different roles
+        return lambda a, b: h(a) % 3 <= h(b) % 3
     if kind == "acc":
         return lambda a, x: ("a", a, x)
     if kind == "num":
@@ -338,15 +375,18 @@ class SubRec:
 class SimSource(Observable):
     """Logged source.  kind: cold (events relative to subscription), hot (absolute,
     broadcast to current observers), sync (everything inside subscribe()).
-    rogue: ignores its own disposal and keeps calling the observer it was given."""
+    rogue: ignores its own disposal and keeps calling the observer it was given.
+    on_dispose: "N" / "C" / "E" - calls the observer synchronously from inside the disposal of its subscription (the way a
+    cancelled future reports CancelledError, or a teardown callback feeds a subject)."""
 
-    def __init__(self, w, sid, kind, events, rogue=False):
+    def __init__(self, w, sid, kind, events, rogue=False, on_dispose=None):
         super().__init__()
         self.w = w
         self.sid = sid
         self.kind = kind
         self.events = [(e[0], e[1], dec(e[2]) if len(e) > 2 else None) for e in events]
         self.rogue = rogue
+        self.on_dispose = on_dispose
         self.subs = []
         self.live = []  # SubRec of live hot observers
         w.sources[sid] = self
@@ -384,6 +424,9 @@ class SimSource(Observable):
             if rec.disp_seq is None:
                 rec.disp_seq = w.tick()
                 rec.disp_t = w.now()
+                if self.on_dispose:
+                    w.fired.append((w.tick(), "source:%s:emits_on_dispose" % self.sid, self.on_dispose))
+                    self._emit(observer, self.on_dispose, "late" if self.on_dispose != "E" else "late-error")
 
         if self.kind == "hot":
             self.live.append(rec)
@@ -491,7 +534,7 @@ class Tap(Observable):
 
 
 def make_sources(w, specs):
-    return {s["id"]: SimSource(w, s["id"], s["kind"], s["events"], s.get("rogue", False)) for s in specs}
+    return {s["id"]: SimSource(w, s["id"], s["kind"], s["events"], s.get("rogue", False), s.get("on_dispose")) for s in specs}
 
 
 # ------------------------------------------------------------------ recorder
